@@ -325,7 +325,9 @@ def check_flow_conservation(G: nx.DiGraph, flow_attr) -> bool:
                 return False
             in_flow += data[flow_attr]
 
-        if out_flow != in_flow:
+        # Float sums depend on the order of the summands ((0.1 + 0.4) + 0.2 != (0.2 + 0.1) + 0.4): compare up to the
+        # tolerance the solver works with, not exactly
+        if abs(out_flow - in_flow) > 1e-9 * max(1, abs(out_flow), abs(in_flow)):
             return False
 
     return True
